@@ -92,10 +92,9 @@ def time_iso(P):
     return h
 
 
-@lemma({"f": int}, params=lambda tier, seed: [[p, sig] for p in ("iso", "long-iso") for sig in (range(1, 7) if tier == "thorough" else (1, 3))],
+@lemma({"f": int}, params=lambda tier, seed: [[p, sig] for p in ("iso", "long-iso") for sig in range(1, 10)],
        budget=300, thorough_budget=600, per_path=40,
-       bounds="every fraction of a second with exactly the given number of significant digits (quick: 1 and 3; thorough: 1..6; 7-9 digits multiply the "
-              "paths beyond the budget and are outside this lemma - the digit scaling itself is parse_fraction_kernel, for 1..9 digits) at the fixed time 12:34:56 "
+       bounds="every fraction of a second with exactly the given number of significant digits (1..9) at the fixed time 12:34:56 "
               "(the fraction field is rendered and parsed after the hh:mm:ss fields, which time_iso covers): the text is 12:34:56.<digits> without "
               "trailing zeros (long form: nine digits) and reads back to the same nanosecond")
 def time_iso_fraction(P):
